@@ -109,10 +109,12 @@ func normValue(d *TDesc, v reflect.Value, useTags bool) string {
 	return normTokens(strings.TrimSpace(sb.String()))
 }
 
-// noMember: the struct value is written without any member. Only tags can do that (the C16 cases set
-// neither OmitNil nor OmitEmpty): without UseTags every exported field is written; with UseTags a
-// field tagged "-" is dropped and one tagged omitempty is dropped when empty. An embedded struct
-// contributes its fields, an embedded pointer those of its target unless nil.
+// noMember: the struct value is written without any member the recomposer reads. Only tags can do
+// that (the C16 cases set neither OmitNil nor OmitEmpty): without UseTags every exported field is
+// written; with UseTags (always on the Marshal route: oj.Marshal runs under ojg.GoOptions) a field
+// tagged omitempty is dropped when empty. A field tagged "-" is never read back (and the generator
+// leaves it zero). An embedded struct contributes its fields, an embedded pointer those of its
+// target unless nil.
 func noMember(d *TDesc, v reflect.Value, useTags bool) bool {
 	if d.Kind != "struct" {
 		return false
@@ -136,11 +138,11 @@ func noMember(d *TDesc, v reflect.Value, useTags bool) bool {
 				continue
 			}
 		}
+		if f.Tag == "-" {
+			continue // never read back: indexType honours the tag whatever the options of the writer say
+		}
 		if !useTags {
 			return false
-		}
-		if f.Tag == "-" {
-			continue
 		}
 		omit := false
 		for k, part := range strings.Split(f.Tag, ",") {
@@ -198,6 +200,9 @@ func (c *c16Case) recomposer(withHist bool) *alt.Recomposer {
 	return r
 }
 
+// tagsUsed: the writer of this route honours json tags (oj.Marshal runs under ojg.GoOptions).
+func (c *c16Case) tagsUsed() bool { return c.route == "marshal" || c.spec.UseTags }
+
 // tree is what the recomposer is given: the decomposition or the parsed Marshal output.
 func (c *c16Case) tree() (any, string) {
 	var t any
@@ -251,7 +256,7 @@ func (c *c16Case) run(t any, withHist bool) (exact, norm string) {
 	if err != nil {
 		return "error", "error"
 	}
-	return valueString(c.d, tgt.Elem()), normValue(c.d, tgt.Elem(), c.spec.UseTags)
+	return valueString(c.d, tgt.Elem()), normValue(c.d, tgt.Elem(), c.tagsUsed())
 }
 
 // ---- predicates that name the known deviations -------------------------------------------------
@@ -532,7 +537,7 @@ func checkC16(d *lib.Driver, c *c16Case) error {
 	rep.AddEval(1, 1)
 	rep.Count("route."+c.route, 1)
 	rep.Count(fmt.Sprintf("history.len=%d", len(c.hist)), 1)
-	want := normValue(c.d, c.v, c.spec.UseTags)
+	want := normValue(c.d, c.v, c.tagsUsed())
 	if terr != "" {
 		// the encoder failed: C15's business (nil embedded pointer, tight nil pointer); nothing to recompose
 		rep.Count("encode_failed", 1)
